@@ -25,17 +25,20 @@ QUICK = ["rec_flat", "rec_empty", "prim_null", "prim_int", "union_prims", "pair_
 
 
 class RealSeqOut:
-    """write-only, non-seekable output over real bytes"""
+    """write-only, non-seekable, buffered output over real bytes: data are delivered on flush()"""
 
     def __init__(self):
         self._b = io.BytesIO()
-        self.flushed = 0
+        self._pending = []
 
     def write(self, data):
-        return self._b.write(data)
+        self._pending.append(bytes(data))
+        return len(data)
 
     def flush(self):
-        self.flushed += 1
+        for d in self._pending:
+            self._b.write(d)
+        self._pending = []
 
     def seekable(self):
         return False
